@@ -212,7 +212,8 @@ def git_fsck(ctx, ws, chunk=8000):
                 if f[2] not in ws.key or ws.key[f[2]][1] != f[1]:
                     raise ToolError("git fsck reports an object outside the worlds: " + line)
                 w, k, n = ws.key[f[2]]
-                per[w].append({"k": k, "n": n})
+                if {"k": k, "n": n} not in per[w]:      # fsck may print the line once per referencing entry; the audit is about the set
+                    per[w].append({"k": k, "n": n})
             elif f[0] not in ("broken", "to", "dangling", "notice:"):
                 raise ToolError("unexpected git fsck output: " + line)
     return per
@@ -337,7 +338,7 @@ def prune(c):
 
 
 def random_part(ctx, binary):
-    n = 400 if not ctx.thorough else 8000
+    n = 400 if not ctx.thorough else 5000
     cases = []
     for _ in range(n):
         c = prune(random_world(ctx.rng))
